@@ -19,7 +19,8 @@ KINDS = {
     "stream": "out.records", "streamgz": "out.records.gz", "json": "out.json", "avro": "out.avro",
     "sqlite": "sqlite://out.db", "csv": "out.csv", "line": "line://out.txt", "text": "text://out.txt",
 }
-EXTRA_KINDS = {"streambz2": ("streamgz", "out.records.bz2"), "streamlz4": ("streamgz", "out.records.lz4"), "streamzst": ("streamgz", "out.records.zst"),
+EXTRA_KINDS = {"sqlite_b1": ("sqlite", "sqlite://out.db?batch_size=1"), "sqlite_b2": ("sqlite", "sqlite://out.db?batch_size=2"), "sqlite_b3": ("sqlite", "sqlite://out.db?batch_size=3"),
+               "streambz2": ("streamgz", "out.records.bz2"), "streamlz4": ("streamgz", "out.records.lz4"), "streamzst": ("streamgz", "out.records.zst"),
                "jsongz": ("json", "out.json.gz"), "jsonl": ("json", "out.jsonl")}
 
 
@@ -102,7 +103,7 @@ def lib_read(path):
 
 
 def observe_after(kind, url, tmp, nwritten):
-    path = os.path.join(tmp, url.split("://")[-1])
+    path = os.path.join(tmp, url.split("://")[-1].split("?")[0])
     a = {"observed": True, "indep_ok": True, "indep": [], "lib_checked": kind in ("stream", "streamgz", "json", "avro", "sqlite") or (kind == "csv" and nwritten > 0),
          "lib_ok": True, "lib": [], "err": "none"}
     try:
@@ -186,9 +187,11 @@ def writers_part(ctx, thorough):
     if thorough:
         kinds += [(name, base, u) for name, (base, u) in EXTRA_KINDS.items()]
     else:
-        kinds += [(name, base, u) for name, (base, u) in EXTRA_KINDS.items() if name in ("streamzst", "jsonl")]
+        kinds += [(name, base, u) for name, (base, u) in EXTRA_KINDS.items() if name in ("streamzst", "jsonl", "sqlite_b1", "sqlite_b2", "sqlite_b3")]
     for name, base, url in kinds:
-        hl = hs if name in KINDS or thorough else [h for h in hs if len(h) <= 3]
+        hl = hs if name in KINDS or thorough or name.startswith("sqlite_b") else [h for h in hs if len(h) <= 3]
+        if name.startswith("sqlite_b") and not thorough:
+            hl = histories(5)
         for h in hl:
             traces.append(run_writer_history(base, url, h, tmp, desc))
             metas.append((name, h))
